@@ -31,6 +31,14 @@ KNOWN=[
  "late SYN / SYNACK packets are fatal in the data phase ('received unexpected message') (known weakness)",
  "half-pairing: the initiator stores the responder's key as soon as act 3 is queued; if the responder never reads act 3 the two sides wait at different rendezvous forever (known)",
  "a lagging application blocks the GBN receive loop (FIN / pongs behind the backlog are not seen) (known, outside the properties)",
+ "a NACK for the top of the window / an ACK processed just before the send loop waits did not wake a Send blocked on a full window (fixed: signal on NACK(top), one-slot receivedACKSignal)",
+ "a read error inside a Noise record left the stream mid-record and a body could be taken for a header (fixed: such an error is sticky)",
+ "the timeout manager was told about a resend only after the transport send returned, so the ACK of the resent copy could be used as an RTT sample (fixed)",
+ "Close is abortive: acknowledged-but-unread data is dropped when the FIN is processed; Write followed at once by Close may send nothing (known, outside the properties)",
+ "concurrent Send calls with payload splitting interleave their chunks (known, splitting unused by mailbox)",
+ "a replayed act 1 makes the KK responder complete its side of the handshake (no key confirmation in two-message KK) (known protocol limitation)",
+ "reads are not resumable after a timeout inside a record (known, by design)",
+ "timeout arithmetic overflows for absurd option values (known)",
  "GBN packets are unauthenticated: a relay that forges ACKs can make a sender drop undelivered data (out of scope)",
 ]
 print(f"""You are given a git worktree of a Go repository at /tmp/wt-{pid} (lightninglabs/lightning-node-connect: a Noise/SPAKE2 encrypted gRPC transport tunnelled over a mailbox relay, with its own Go-Back-N reliable-delivery protocol; the relevant Go modules are gbn/ and mailbox/). Work ONLY inside /tmp/wt-{pid}. Do not read or touch /verif, /repo, /root/spike or any other /tmp/wt-* directory. There is no network. Use the default environment for go commands (do NOT set GOSUMDB=off or GOPROXY=off). Existing tests: `cd gbn && go test -mod=mod -vet=off -count=1 ./...` (about 20 s) and `cd mailbox && go test -mod=mod -vet=off -count=1 ./...` (about 5 s).
@@ -38,6 +46,8 @@ print(f"""You are given a git worktree of a Go repository at /tmp/wt-{pid} (ligh
 This semantic property is supposed to hold for the code base AS IT IS (do not modify the non-test sources):
 
 {json.dumps(prop, indent=1)}
+
+An earlier reviewer has already audited this property once; the KNOWN list below contains what was found. Look where they are least likely to have looked: unusual configurations and option combinations, the interaction between the mailbox layer (retry loops, stream re-creation, status handling) and GBN, error paths, shutdown and restart paths, boundary values, and multi-step histories.
 
 TASK: audit the UNMODIFIED code against this property and try to find GENUINE violations: a concrete input, configuration, schedule / interleaving, timer coincidence, or fault sequence (packet loss, duplication, delay, relay stream errors, relay restart, slow or blocked callbacks, cancelled contexts, slow application, ...) permitted by the property's quantifier under which the real code breaks the property. Think like a reviewer hunting for protocol and concurrency bugs: read the anchored code closely, enumerate the states of the loops and timers, look at every error path, every place where two goroutines touch the same state, every wrap-around, every 'this cannot happen' assumption.
 
